@@ -165,13 +165,85 @@ pub fn cancel_kernel(p_mode: u8) {
 
 vharnesses! {
     #[cfg_attr(kani, kani::unwind(12))]
-    fn c16_sell_limit_kernel_ticks_1_10() { kernel_all_ticks(true, false) }
+    fn c16_sell_limit_kernel_tick1() { kernel_case::<1>(true, false) }
     #[cfg_attr(kani, kani::unwind(12))]
-    fn c16_buy_limit_kernel_ticks_1_10() { kernel_all_ticks(false, false) }
+    fn c16_buy_limit_kernel_tick1() { kernel_case::<1>(false, false) }
     #[cfg_attr(kani, kani::unwind(12))]
-    fn c16_sell_limit_kernel_market_ticks_1_10() { kernel_all_ticks(true, true) }
+    fn c16_sell_limit_kernel_market_tick1() { kernel_case::<1>(true, true) }
     #[cfg_attr(kani, kani::unwind(12))]
-    fn c16_buy_limit_kernel_market_ticks_1_10() { kernel_all_ticks(false, true) }
+    fn c16_buy_limit_kernel_market_tick1() { kernel_case::<1>(false, true) }
+    #[cfg_attr(kani, kani::unwind(12))]
+    fn c16_sell_limit_kernel_tick2() { kernel_case::<2>(true, false) }
+    #[cfg_attr(kani, kani::unwind(12))]
+    fn c16_buy_limit_kernel_tick2() { kernel_case::<2>(false, false) }
+    #[cfg_attr(kani, kani::unwind(12))]
+    fn c16_sell_limit_kernel_market_tick2() { kernel_case::<2>(true, true) }
+    #[cfg_attr(kani, kani::unwind(12))]
+    fn c16_buy_limit_kernel_market_tick2() { kernel_case::<2>(false, true) }
+    #[cfg_attr(kani, kani::unwind(12))]
+    fn c16_sell_limit_kernel_tick3() { kernel_case::<3>(true, false) }
+    #[cfg_attr(kani, kani::unwind(12))]
+    fn c16_buy_limit_kernel_tick3() { kernel_case::<3>(false, false) }
+    #[cfg_attr(kani, kani::unwind(12))]
+    fn c16_sell_limit_kernel_market_tick3() { kernel_case::<3>(true, true) }
+    #[cfg_attr(kani, kani::unwind(12))]
+    fn c16_buy_limit_kernel_market_tick3() { kernel_case::<3>(false, true) }
+    #[cfg_attr(kani, kani::unwind(12))]
+    fn c16_sell_limit_kernel_tick4() { kernel_case::<4>(true, false) }
+    #[cfg_attr(kani, kani::unwind(12))]
+    fn c16_buy_limit_kernel_tick4() { kernel_case::<4>(false, false) }
+    #[cfg_attr(kani, kani::unwind(12))]
+    fn c16_sell_limit_kernel_market_tick4() { kernel_case::<4>(true, true) }
+    #[cfg_attr(kani, kani::unwind(12))]
+    fn c16_buy_limit_kernel_market_tick4() { kernel_case::<4>(false, true) }
+    #[cfg_attr(kani, kani::unwind(12))]
+    fn c16_sell_limit_kernel_tick5() { kernel_case::<5>(true, false) }
+    #[cfg_attr(kani, kani::unwind(12))]
+    fn c16_buy_limit_kernel_tick5() { kernel_case::<5>(false, false) }
+    #[cfg_attr(kani, kani::unwind(12))]
+    fn c16_sell_limit_kernel_market_tick5() { kernel_case::<5>(true, true) }
+    #[cfg_attr(kani, kani::unwind(12))]
+    fn c16_buy_limit_kernel_market_tick5() { kernel_case::<5>(false, true) }
+    #[cfg_attr(kani, kani::unwind(12))]
+    fn c16_sell_limit_kernel_tick6() { kernel_case::<6>(true, false) }
+    #[cfg_attr(kani, kani::unwind(12))]
+    fn c16_buy_limit_kernel_tick6() { kernel_case::<6>(false, false) }
+    #[cfg_attr(kani, kani::unwind(12))]
+    fn c16_sell_limit_kernel_market_tick6() { kernel_case::<6>(true, true) }
+    #[cfg_attr(kani, kani::unwind(12))]
+    fn c16_buy_limit_kernel_market_tick6() { kernel_case::<6>(false, true) }
+    #[cfg_attr(kani, kani::unwind(12))]
+    fn c16_sell_limit_kernel_tick7() { kernel_case::<7>(true, false) }
+    #[cfg_attr(kani, kani::unwind(12))]
+    fn c16_buy_limit_kernel_tick7() { kernel_case::<7>(false, false) }
+    #[cfg_attr(kani, kani::unwind(12))]
+    fn c16_sell_limit_kernel_market_tick7() { kernel_case::<7>(true, true) }
+    #[cfg_attr(kani, kani::unwind(12))]
+    fn c16_buy_limit_kernel_market_tick7() { kernel_case::<7>(false, true) }
+    #[cfg_attr(kani, kani::unwind(12))]
+    fn c16_sell_limit_kernel_tick8() { kernel_case::<8>(true, false) }
+    #[cfg_attr(kani, kani::unwind(12))]
+    fn c16_buy_limit_kernel_tick8() { kernel_case::<8>(false, false) }
+    #[cfg_attr(kani, kani::unwind(12))]
+    fn c16_sell_limit_kernel_market_tick8() { kernel_case::<8>(true, true) }
+    #[cfg_attr(kani, kani::unwind(12))]
+    fn c16_buy_limit_kernel_market_tick8() { kernel_case::<8>(false, true) }
+    #[cfg_attr(kani, kani::unwind(12))]
+    fn c16_sell_limit_kernel_tick9() { kernel_case::<9>(true, false) }
+    #[cfg_attr(kani, kani::unwind(12))]
+    fn c16_buy_limit_kernel_tick9() { kernel_case::<9>(false, false) }
+    #[cfg_attr(kani, kani::unwind(12))]
+    fn c16_sell_limit_kernel_market_tick9() { kernel_case::<9>(true, true) }
+    #[cfg_attr(kani, kani::unwind(12))]
+    fn c16_buy_limit_kernel_market_tick9() { kernel_case::<9>(false, true) }
+    #[cfg_attr(kani, kani::unwind(12))]
+    fn c16_sell_limit_kernel_tick10() { kernel_case::<10>(true, false) }
+    #[cfg_attr(kani, kani::unwind(12))]
+    fn c16_buy_limit_kernel_tick10() { kernel_case::<10>(false, false) }
+    #[cfg_attr(kani, kani::unwind(12))]
+    fn c16_sell_limit_kernel_market_tick10() { kernel_case::<10>(true, true) }
+    #[cfg_attr(kani, kani::unwind(12))]
+    fn c16_buy_limit_kernel_market_tick10() { kernel_case::<10>(false, true) }
     #[cfg_attr(kani, kani::unwind(12))]
     fn c16_cancel_kernel_p_zero() { cancel_kernel(0) }
     #[cfg_attr(kani, kani::unwind(12))]
